@@ -614,6 +614,9 @@ def run(tier='quick'):
                           'payload size incl. exact multiples of the chunk size): a truncated stream is unreadable by Engine',
                    floor=2)
     extra.deflate_complete(prog, chk, W15)
+    W17 = chk.rule('W17', 'the rows a DELETE / UPDATE touches are selected by equality on keys, never by LIKE / GLOB against a '
+                          'bound or computed pattern', floor=20)
+    extra.no_pattern_match_in_writes(prog, cg, eff, chk, W17)
     W16 = chk.rule('W16', 'a co-update is made whatever is stored already: no write of a track / crate mutator is skipped on a comparison of the wanted value with a value derived from stored state (an accessor that looks at a column the function has just overwritten always agrees, and the dependent row is never rewritten)', floor=10)
     extra.writes_not_skipped_on_stored_state(prog, cg, eff, chk, W16, extra._mutators_of(prog, ('djinterop::engine::v1::engine_track_impl', 'djinterop::engine::v2::track_impl', 'djinterop::engine::v1::engine_crate_impl', 'djinterop::engine::v2::crate_impl')))
     return chk.finish('statement sites of the 1.x crate operations with resolved binds (roles), field model of '
